@@ -145,6 +145,14 @@ def check_sources(ctx, n_cases):
             pool = list(zip(exp_ctx, labels)); sample_labels = []
             for g in got:
                 m = [k for k, (c, l) in enumerate(pool) if c == g["context"] and ((l if isinstance(l, list) else [l]) and set(map(str, g["actions"])) >= set(l if (isinstance(l, list) and case.get("label_type") == "m") else [l[0] if isinstance(l, list) else l]))]
+                # equal contexts with different labels: the rewards tell which example was drawn
+                acts_s = list(map(str, g["actions"]))
+                def consistent(l):
+                    ls = [str(x) for x in (l if isinstance(l, list) else [l])]
+                    if case.get("label_type") == "m": want = [Fr(len({a} & set(ls)), len({a} | set(ls))) for a in acts_s]
+                    else: want = [Fr(1 if a == ls[0] else 0) for a in acts_s]
+                    return len(want) == len(g["rewards"]) and all(abs(Fr(x) - w) < Fr(1, 10**9) for x, w in zip(g["rewards"], want))
+                m = [k for k in m if consistent(pool[k][1])] or m
                 if not m: ok = False; what = "sample-not-from-data"; break
                 sample_labels.append(pool.pop(m[0])[1])
             if ok: exp_acts = sorted(set(x for l in sample_labels for x in l)) if case.get("label_type") == "m" else sorted(set((l[0] if isinstance(l, list) else l) for l in sample_labels))
